@@ -20,7 +20,8 @@ Allows(e, k, maxIndent) ==
   /\ (e.midline => k \in {"DEDENT", "ERROR_DEDENT", "ENDMARKER", "BREAK"})
   /\ (k = "INDENT" => e.nl /\ ~e.afterIndent /\ ~e.afterDedent /\ e.ind < maxIndent)
   /\ (k = "DEDENT" => e.ind > 0 /\ ~e.afterIndent)
-  /\ (k = "ERROR_DEDENT" => e.ind > 0 /\ ~e.afterIndent /\ (e.nl \/ e.midline))
+  /\ (k = "ERROR_DEDENT" => e.ind > 0 /\ ~e.afterIndent)    \* also in mid-line: `(` newline ` del` inside an indented block
+                                                            \* (found by TLC as a TokenizerB => TokEnv counterexample)
   /\ (k = "NEWLINE" => ~e.nl /\ ~e.afterIndent)
   /\ (k = "ENDMARKER" => e.ind = 0 /\ ~e.afterIndent)
 
